@@ -107,6 +107,10 @@ def mismatch_traces(ctx, uni, mp, g, ps, fam, thorough):
                          ("idB-case", dict(idsB=(ids[0], b"BOB"))), ("idB-tab", dict(idsB=(ids[0], b"bob\t"))),
                          ("join", dict(idsB=(ids[0] + ids[1], b"")))]
         variants += [(k, dict(psB=fam[k])) for k in (DIFFS_PARAM[pairing] if toy else ([] if not fam else list(fam)))]
+        if not thorough and not toy:          # quick: a seed-dependent third of the variants at full size
+            variants = [v for k, v in enumerate(variants) if k % 3 == ctx.seed % 3 or v[0] in ("pw", "idA-case")]
+        if not thorough and g != "i11" and toy:
+            variants = [v for k, v in enumerate(variants) if k % 2 == ctx.seed % 2 or v[0] in DIFFS_PARAM[pairing]]
         for name, kw in variants:
             for x in xs:
                 for y in (xs if toy and q <= 5 or thorough and toy and q <= 11 else [0, (q - x) % q, ctx.rng.randrange(q)] if toy or thorough
